@@ -6,11 +6,21 @@ import RbV.Lemmas.Tsv
 
 Trusted reading: `String::deserialize(deserializer)?` hands the column over as a string (the parameter `field`); `u8::from_str` is
 `Rs.parseU8` (optional `+`, digits, at most 255); the error values are erased (`Except Unit`). -/
+set_option linter.unusedSimpArgs false
 namespace RbV.Thm.GenSrcGffRead
 open RbV RbV.Rs RbV.Tsv RbV.Gen.SrcGffRead
 
 theorem validate_eq_model (p : Nat) : validate p = if p < 3 then some p else none := by
-  simp [validate]
+  -- whichever way the test is written (`p < 3`, `p <= 2`, `p >= 3` with the branches swapped, `3 > p`)
+  by_cases h : p < 3
+  · have h1 : p ≤ 2 := by omega
+    have h2 : ¬ 3 ≤ p := by omega
+    have h3 : ¬ 2 < p := by omega
+    simp [validate, h, h1, h2, h3]
+  · have h1 : ¬ p ≤ 2 := by omega
+    have h2 : 3 ≤ p := by omega
+    have h3 : 2 < p := by omega
+    simp [validate, h, h1, h2, h3]
 
 /-- `u8::from_str` in terms of the model's `parseDec` -/
 theorem parseU8_eq (s : List Nat) :
